@@ -2,6 +2,8 @@
 
 import math
 import time
+from decimal import Decimal
+from fractions import Fraction
 from typing import Any, Dict, List, Optional, Tuple, Union
 from dataclasses import dataclass
 
@@ -48,19 +50,38 @@ _VERIF_ENABLED = _os.environ.get("MICROJS_VERIF") == "1"
 _VERIF_HOOK = None
 
 
-def js_round(x: float, ndigits: int = 0) -> float:
-    """Round using JavaScript-style 'round half away from zero' instead of Python's 'round half to even'."""
-    if ndigits == 0:
-        if x >= 0:
-            return math.floor(x + 0.5)
-        else:
-            return math.ceil(x - 0.5)
-    else:
-        multiplier = 10**ndigits
-        if x >= 0:
-            return math.floor(x * multiplier + 0.5) / multiplier
-        else:
-            return math.ceil(x * multiplier - 0.5) / multiplier
+def _round_half_up(q: Fraction) -> int:
+    """The integer nearest to q >= 0; of two equally near ones the larger."""
+    return (2 * q.numerator + q.denominator) // (2 * q.denominator)
+
+
+def _significant_digits(x: Fraction, count: int) -> Tuple[str, int]:
+    """The count-digit integer n (as text) and exponent e for which
+    n * 10**(e - count + 1) is nearest to the exact value x > 0; ties take the
+    larger n, as Number.prototype.toExponential/toPrecision specify."""
+    # the digit counts of numerator and denominator place floor(log10(x)) within one
+    e = len(str(x.numerator)) - len(str(x.denominator))
+    if x < Fraction(10) ** e:
+        e -= 1
+    n = _round_half_up(x / Fraction(10) ** (e - count + 1))
+    if n == 10**count:
+        n //= 10
+        e += 1
+    return str(n), e
+
+
+def _shortest_digits(x: float) -> Tuple[str, int]:
+    """The shortest decimal digits that round-trip to x > 0, and the exponent
+    of the first of them."""
+    _, digits, exponent = Decimal(repr(x)).as_tuple()
+    text = "".join(map(str, digits)).lstrip("0")
+    e = len(text) + exponent - 1
+    return text.rstrip("0"), e
+
+
+def _exponential(digits: str, e: int) -> str:
+    head = digits[0] + ("." + digits[1:] if len(digits) > 1 else "")
+    return head + "e" + ("+" if e >= 0 else "-") + str(abs(e))
 
 
 _MAX_SAFE = 9007199254740992  # 2**53: every integer up to here is a double
@@ -1804,16 +1825,18 @@ class VM:
         """Create a bound number method."""
 
         def toFixed(*args):
-            digits = int(to_number(args[0])) if args else 0
+            digits = to_integer_or_infinity(args[0]) if args else 0
             if digits < 0 or digits > 100:
-                raise JSReferenceError("toFixed() digits out of range")
-            # Use JavaScript-style rounding (round half away from zero)
-            rounded = js_round(n, digits)
-            result = f"{rounded:.{digits}f}"
-            # Handle negative zero: if n was negative but rounded to 0, keep the sign
-            if n < 0 or (n == 0 and math.copysign(1, n) == -1):
-                if rounded == 0:
-                    result = "-" + result.lstrip("-")
+                raise JSRangeError("toFixed() digits argument must be between 0 and 100")
+            if math.isnan(n) or abs(n) >= 1e21:
+                return to_string(n)
+            # round the exact value of the double, half away from zero
+            result = str(_round_half_up(Fraction(abs(n)) * 10**digits))
+            if digits:
+                result = result.rjust(digits + 1, "0")
+                result = result[:-digits] + "." + result[-digits:]
+            if n < 0:
+                result = "-" + result
             return result
 
         def toString(*args):
@@ -1830,104 +1853,40 @@ class VM:
             return self._number_to_base(n, radix)
 
         def toExponential(*args):
-            import math
-
-            if args and args[0] is not UNDEFINED:
-                digits = int(to_number(args[0]))
-            else:
-                digits = None
-
-            if math.isnan(n):
-                return "NaN"
-            if math.isinf(n):
-                return "-Infinity" if n < 0 else "Infinity"
-
-            if digits is None:
-                # Default precision - minimal representation
-                # Use repr-style formatting and convert to exponential
-                if n == 0:
-                    return "0e+0"
-                sign = "-" if n < 0 else ""
-                abs_n = abs(n)
-                exp = int(math.floor(math.log10(abs_n)))
-                mantissa = abs_n / (10**exp)
-                # Format mantissa without trailing zeros
-                mantissa_str = f"{mantissa:.15g}".rstrip("0").rstrip(".")
-                exp_sign = "+" if exp >= 0 else ""
-                return f"{sign}{mantissa_str}e{exp_sign}{exp}"
-            else:
-                if digits < 0 or digits > 100:
-                    raise JSReferenceError("toExponential() digits out of range")
-                # Round to specified digits
-                if n == 0:
-                    return "0" + ("." + "0" * digits if digits > 0 else "") + "e+0"
-                sign = "-" if n < 0 else ""
-                abs_n = abs(n)
-                exp = int(math.floor(math.log10(abs_n)))
-                mantissa = abs_n / (10**exp)
-                # Round mantissa to specified digits using JS-style rounding
-                rounded = js_round(mantissa, digits)
-                if rounded >= 10:
-                    rounded /= 10
-                    exp += 1
-                if digits == 0:
-                    mantissa_str = str(int(js_round(rounded)))
-                else:
-                    mantissa_str = f"{rounded:.{digits}f}"
-                exp_sign = "+" if exp >= 0 else ""
-                return f"{sign}{mantissa_str}e{exp_sign}{exp}"
+            fraction_digits = args[0] if args else UNDEFINED
+            digits = to_integer_or_infinity(fraction_digits)
+            if math.isnan(n) or math.isinf(n):
+                return to_string(n)
+            if digits < 0 or digits > 100:
+                raise JSRangeError("toExponential() argument must be between 0 and 100")
+            sign = "-" if n < 0 else ""
+            if n == 0:
+                return _exponential("0" * (digits + 1), 0)
+            if fraction_digits is UNDEFINED:
+                # as many digits as are needed to identify the number
+                return sign + _exponential(*_shortest_digits(abs(n)))
+            return sign + _exponential(*_significant_digits(Fraction(abs(n)), digits + 1))
 
         def toPrecision(*args):
-            import math
-
             if not args or args[0] is UNDEFINED:
-                if isinstance(n, float) and n.is_integer():
-                    return str(int(n))
-                return str(n)
-
-            precision = int(to_number(args[0]))
+                return to_string(n)
+            precision = to_integer_or_infinity(args[0])
+            if math.isnan(n) or math.isinf(n):
+                return to_string(n)
             if precision < 1 or precision > 100:
-                raise JSReferenceError("toPrecision() precision out of range")
-
-            if math.isnan(n):
-                return "NaN"
-            if math.isinf(n):
-                return "-Infinity" if n < 0 else "Infinity"
-
-            if n == 0:
-                if precision == 1:
-                    return "0"
-                return "0." + "0" * (precision - 1)
-
+                raise JSRangeError("toPrecision() argument must be between 1 and 100")
             sign = "-" if n < 0 else ""
-            abs_n = abs(n)
-            exp = int(math.floor(math.log10(abs_n)))
-
-            # Decide if we use exponential or fixed notation
-            if exp < -6 or exp >= precision:
-                # Use exponential notation
-                mantissa = abs_n / (10**exp)
-                rounded = js_round(mantissa, precision - 1)
-                if rounded >= 10:
-                    rounded /= 10
-                    exp += 1
-                if precision == 1:
-                    mantissa_str = str(int(js_round(rounded)))
-                else:
-                    mantissa_str = f"{rounded:.{precision - 1}f}"
-                exp_sign = "+" if exp >= 0 else ""
-                return f"{sign}{mantissa_str}e{exp_sign}{exp}"
+            if n == 0:
+                digits, e = "0" * precision, 0
             else:
-                # Use fixed notation
-                # Calculate digits after decimal
-                if exp >= 0:
-                    decimal_places = max(0, precision - exp - 1)
-                else:
-                    decimal_places = precision - 1 - exp
-                rounded = js_round(abs_n, decimal_places)
-                if decimal_places <= 0:
-                    return f"{sign}{int(rounded)}"
-                return f"{sign}{rounded:.{decimal_places}f}"
+                digits, e = _significant_digits(Fraction(abs(n)), precision)
+            if e < -6 or e >= precision:
+                return sign + _exponential(digits, e)
+            if e == precision - 1:
+                return sign + digits
+            if e >= 0:
+                return sign + digits[: e + 1] + "." + digits[e + 1 :]
+            return sign + "0." + "0" * -(e + 1) + digits
 
         def valueOf(*args):
             return n
